@@ -267,6 +267,53 @@ theorem resetUpstream_ledger (c : Cfg) (aq : Nat) (s : S) (h : LedgerOk c aq s) 
       exact hs ▸ hdead1
 
 
+theorem liveCount_append (l : List Stream) (st : Stream) :
+    liveCount (l ++ [st]) = liveCount l + (if st.live && st.counted then 1 else 0) := by
+  simp only [liveCount, List.filter_append, List.length_append, List.filter_cons, List.filter_nil, liveCounted]
+  by_cases h : (st.live && st.counted) = true <;> simp [h]
+
+theorem allDead_of_counted (l : List Stream) (h22 : liveAreCounted l = true) (hlc : liveCount l = 0) : allDead l = true := by
+  induction l with
+  | nil => rfl
+  | cons x r ih =>
+    simp only [liveAreCounted, List.all_cons, Bool.and_eq_true] at h22
+    rw [liveCount_cons] at hlc
+    rw [allDead_cons]
+    have hx : x.live = false := by
+      cases hl : x.live with
+      | false => rfl
+      | true =>
+        have hc : x.counted = true := by simpa [hl] using h22.1
+        simp [hl, hc] at hlc
+    have hr : liveCount r = 0 := by omega
+    simp [hx, ih h22.2 hr]
+
+/-- a new client stream is appended for the current upstream request while every older one is dead -/
+theorem ledger_append (c : Cfg) (aq : Nat) (s : S) (st : Stream) (upv : Option (Option Nat)) (rq ua : Int)
+    (hled : LedgerOk c aq s) (hdead : allDead s.streams = true)
+    (hst : st.live = true → upv = some (some s.streams.length) ∧ st.real = true)
+    (hup : ∀ k, upv = some (some k) → k < s.streams.length + 1)
+    (hrq : rq = s.requests + (if c.maxRequests != 0 && st.live && st.counted then 1 else 0))
+    (hua : ua = s.upActive + (if st.live && st.counted then 1 else 0)) :
+    LedgerOk c aq { s with streams := s.streams ++ [st], up := upv, requests := rq, upActive := ua } := by
+  obtain ⟨h10, h11, _⟩ := hled
+  have hl0 := allDead_liveCount hdead
+  refine ⟨?_, ?_, ?_⟩
+  · simp only [K10, heldRequests, liveCount_append, hl0] at h10 ⊢
+    rw [hrq, h10]
+    cases hl : st.live <;> cases hc : st.counted <;> by_cases hm : c.maxRequests = 0 <;> simp [hm, hl, hc]
+  · simp only [K11, liveCount_append, hl0] at h11 ⊢
+    rw [hua, h11]
+    cases hl : st.live <;> cases hc : st.counted <;> simp [hl, hc]
+  · rw [K14, streamsOk_iff]
+    refine ⟨?_, ?_, ?_⟩
+    · simpa using hdead
+    · intro st' hst' hl
+      simp at hst'; subst hst'
+      have := hst hl
+      simp [this.1, this.2]
+    · intro k hk; simpa using hup k hk
+
 theorem K22_destroyStream (c : Cfg) (s : S) (k : Nat) (h : K22 c s) : K22 c (destroyStream c s k) := by
   intro ho
   have := h ho
